@@ -235,7 +235,7 @@ def run_config(cfg, rec):
                 items.append(("fixed / expression parameters get no standard error", z3.BoolVal(isinstance(se, float) and se != se),
                               "statistics:standard-error-fixed"))
         rec.check_all(ctx, items, wit)
-        rec.sample({"path_condition": [str(c) for c in ctx.pc][:4], "dof": dof, "free": free_labels, "n_clp": n_clp,
+        rec.want_sample() and rec.sample({"path_condition": [str(c) for c in ctx.pc][:4], "dof": dof, "free": free_labels, "n_clp": n_clp,
                     "chi_square": str(chi)[:120]})
         env = c02.DefaultEnv()
         rec.validate("counts", dict(env), {"n_res": n_data + len(pens), "n_clp": n_clp, "dof": dof})
